@@ -250,8 +250,26 @@ class PInner(PaneBase, custom=_h1):
     v: int = 0
 
 
-PANE_CLASSES = [P2, PT, PAlias, PReq, PRen, PHook, PHook2, PNest, VA, VB, PInit, PInner]
-HANDLER_SETS = [ConverterHandlers(), ConverterHandlers((_h1,), ()), ConverterHandlers((), (_h2,)), ConverterHandlers((_h1,), (_h2, _h1))]
+_STR_MARK = C.ScalarConverter(str, str, 'a marked string', 'marked strings')
+_INT_MARK = C.ScalarConverter(int, int, 'a marked int', 'marked ints', int)
+
+
+def _h3(ty, args, *, handlers):          # answers for str only
+    return _STR_MARK if ty is str and not args else NotImplemented
+
+
+def _h4(ty, args, *, handlers):          # answers for int only
+    return _INT_MARK if ty is int and not args else NotImplemented
+
+
+class PInner2(PaneBase, custom=_h4):     # own class handler for int; str must come from an ENCLOSING class's / the call's handlers
+    v: int = 0
+    s: str = ''
+
+
+PANE_CLASSES = [P2, PT, PAlias, PReq, PRen, PHook, PHook2, PNest, VA, VB, PInit, PInner, PInner2]
+HANDLER_SETS = [ConverterHandlers(), ConverterHandlers((_h1,), ()), ConverterHandlers((), (_h2,)), ConverterHandlers((_h1,), (_h2, _h1)),
+                ConverterHandlers((), (_h3,)), ConverterHandlers((_h3,), (_h2,))]
 
 
 def _pane_init_instances(m):
@@ -452,6 +470,7 @@ def _process_instances(m):
         (hhs, {'types': {'a': str, 'b': str}, 'values': [({'a': 's', 'b': 'q'}, True), ({'a': 1}, False)]}),
         (HI, {'types': {'a': int}, 'values': [({'a': 1, 'c': 2.0}, True), ({'a': 'x'}, False)]}),
         (HL, {'opts': {'kw_only': True, 'out_rename': 'camel'}}),
+        (PAlias, {}), (PT, {}), (PNest, {}), (PInit, {}), (PMut, {}), (PSpan, {}),
     ]
     return [((lambda cls, expect: cls), ['cls', 'expect'], (c, e), f'class {getattr(c, "__name__", c)}') for c, e in cases]
 
@@ -490,6 +509,12 @@ def _subscript_case(kind):
                 pass
             return tuple(f.type for f in HS2.__pane_info__.fields)
         return tuple(f.type for f in HS.__pane_info__.fields) + tuple(f.type for f in HS[int, str].__pane_info__.fields)
+    if kind == 'nested-typevar':                  # G[List[V], int][str]: a variable INSIDE an argument stays a parameter
+        class HP3(PaneBase, t.Generic[T_, U_]):
+            first: T_
+            second: U_
+        V = t.TypeVar('V')
+        return tuple(f.type for f in HP3[t.List[V], int][str].__pane_info__.fields)
     if kind == 'nested-generic':                  # a field whose type is a subscripted generic dataclass
         class HGS(PaneBase, t.Generic[T_]):
             v: T_
@@ -500,7 +525,7 @@ def _subscript_case(kind):
     raise ValueError(kind)
 
 
-SUBSCRIPT_KINDS = ('forwarded', 'explicit-generic', 'partially-bound', 'swapped', 'grandchild', 'rebound-same-var', 'nested-generic')
+SUBSCRIPT_KINDS = ('forwarded', 'explicit-generic', 'partially-bound', 'swapped', 'grandchild', 'rebound-same-var', 'nested-typevar', 'nested-generic')
 CUSTOM['pane.classes:_make_subclass.bounded'] = lambda m: [(_subscript_case, ['kind'], (k,), f'subscript[{k}]') for k in SUBSCRIPT_KINDS]
 
 
@@ -610,16 +635,29 @@ def _io_instances(m):
 CUSTOM['pane.io:roundtrip.bounded'] = _io_instances
 
 
-def _yaml_all(value, ty):
+def _yaml_all(value, ty, source='stream'):
     import io as _io
     import yaml
     import importlib
+    import tempfile
+    import os as _os
     pio = importlib.import_module('pane.io')
-    buf = _io.StringIO(yaml.safe_dump_all(value))
-    return pio.from_yaml_all(buf, ty)
+    text = yaml.safe_dump_all(value)
+    if source == 'stream':
+        return pio.from_yaml_all(_io.StringIO(text), ty)
+    d = tempfile.mkdtemp(prefix='pvc_yaml_')
+    try:
+        path = _os.path.join(d, 'docs.yaml')
+        with open(path, 'w') as f:
+            f.write(text)
+        return pio.from_yaml_all(pathlib.Path(path) if source == 'path' else path, ty)
+    finally:
+        import shutil
+        shutil.rmtree(d, ignore_errors=True)
 
 
-CUSTOM['pane.io:from_yaml_all.bounded'] = lambda m: [(_yaml_all, ['value', 'ty'], (v, ty), f'from_yaml_all({v!r})') for v, ty in
+CUSTOM['pane.io:from_yaml_all.bounded'] = lambda m: [((lambda value, ty, _s=src: _yaml_all(value, ty, _s)), ['value', 'ty'], (v, ty), f'from_yaml_all[{src}]({v!r})')
+                                                     for src in ('stream', 'path', 'str-path') for v, ty in
                                                      [([1, 2, 3], int), ([1, None, 3], t.Optional[int]), ([None, None], type(None)), ([{'n': 1}, {'n': 2}], PReq), ([], int)]]
 
 
@@ -932,3 +970,48 @@ def _cmp_instances(name):
 
 for _n in ('__lt__', '__le__', '__gt__', '__ge__'):
     CUSTOM[f'pane.classes:_make_ord.<locals>.{_n}'] = _cmp_instances(_n)
+
+
+# ---- data paths vs constructor (bounded contract data_paths.bounded) -------------------------------------------------------------
+def _data_path_case(cls, data):
+    inst = cls.from_data(copy.deepcopy(data))
+    conv = make_converter(cls)
+    if isinstance(data, abc.Mapping):
+        by_name = {conv.fields[conv.field_map[k]].name: v for k, v in data.items() if k in conv.field_map}
+        expect = cls(**copy.deepcopy(by_name))
+        supplied = set(by_name)
+    else:
+        expect = cls(*copy.deepcopy(list(data)))
+        supplied = {f.name for f, _ in zip([f for f in conv.fields if f.init and not f.kw_only], list(data))}
+    again = cls.from_data(copy.deepcopy(data))
+    fresh = all(getattr(inst, f.name) is not getattr(again, f.name)
+                for f in conv.fields if isinstance(getattr(inst, f.name, None), (list, dict, set)) and f.name not in supplied)
+    return {'same_value': (type(inst) is type(expect) and all(
+                type(getattr(inst, f.name)) is type(getattr(expect, f.name)) and getattr(inst, f.name) == getattr(expect, f.name) for f in conv.fields)),
+            'record': set(inst.__pane_set__), 'expected_record': set(expect.__pane_set__) | set(), 'supplied': supplied, 'fresh_defaults': fresh}
+
+
+class PSpan(PaneBase, in_format=('tuple', 'struct')):
+    start: int
+    length: float = field(init=False, default=0.0)
+    stop: int = 0
+    tags: t.List[str] = field(default_factory=list)
+
+
+def _data_path_instances(m):
+    out = []
+    classes = [c for c in PANE_CLASSES if not hasattr(c, '__post_init__')] + [PMut, PSpan]
+    extra = [(2, 10), [2, 10, ['a']], {'start': 1}, {'start': 1, 'stop': 3, 'tags': ['q']}, {'first-name': 'a'}, {'firstName': 'a', 'lastName': 'b'}]
+    for cls in classes:
+        for v in VALUES + extra:
+            if not isinstance(v, (abc.Mapping, list, tuple)):
+                continue
+            try:
+                cls.from_data(copy.deepcopy(v))
+            except Exception:
+                continue
+            out.append((_data_path_case, ['cls', 'data'], (cls, v), f'data_paths[{cls.__name__}] from_data({v!r})'))
+    return out
+
+
+CUSTOM['pane.classes:data_paths.bounded'] = _data_path_instances
